@@ -1,6 +1,8 @@
 package PVM
 
 import (
+	"encoding/binary"
+
 	"github.com/New-JAMneration/JAM-Protocol/internal/service_account"
 	"github.com/New-JAMneration/JAM-Protocol/internal/types"
 )
@@ -394,13 +396,11 @@ func invoke(input OmegaInput) (output OmegaOutput) {
 	c, pcPrime = tempHost.Interpreter.SingleStepInvoke(input.Addition.IntegratedPVMMap[n].PC)
 
 	// mu* = mu
-	encoder := types.NewEncoder()
+	// E_8(g') ++ E_8(w'_0) ++ ... ++ E_8(w'_12)
 	data = types.ByteSequence(make([]byte, offset))
-	encoded, _ := encoder.Encode(&tempHost.Interpreter.Gas) // encode g'
-	copy(data, encoded)
+	binary.LittleEndian.PutUint64(data[:8], uint64(tempHost.Interpreter.Gas))
 	for i := uint64(1); i < offset/8; i++ {
-		encoded, _ := encoder.Encode(&tempHost.Interpreter.Registers[i-1])
-		copy(data[8*i:8*(i+1)], encoded)
+		binary.LittleEndian.PutUint64(data[8*i:8*(i+1)], tempHost.Interpreter.Registers[i-1])
 	}
 	// write data into memory (mu)
 	input.VM.Memory.Write(o, data)
